@@ -177,8 +177,12 @@ def _tree_worker(args):
     modname, funcname, case = args
     import importlib
     mod = importlib.import_module(modname)
+    from ..runner import watchdog, CaseTimeout
     try:
-        res = getattr(mod, funcname)(case)
+        with watchdog(120):
+            res = getattr(mod, funcname)(case)
+    except CaseTimeout:
+        return case, None, 'case did not finish within 120s (inconclusive)', None
     except HarnessError as e:
         return case, None, str(e), None
     except Exception as e:
